@@ -28,7 +28,9 @@ CLAIMS = {
     "C02": C("Proved: _fcn, _init_agent (cost = sgn * F(position), fitness = Fit(user cost)), calculate_fitness (bit-precise fp64), "
              "Task.solve (objective evaluated at the position itself: members of the space are fixed points of correct), the two result "
              "constructors (sign restored exactly once, positions and fitness kept) and optimize()'s invariant (every recorded agent "
-             "Reported). Scalar objectives fully; list-valued objectives: count / exceptions proved, the weighted value bounded. "
+             "Reported). Both objective kinds: for a list-valued objective every value keeps / flips its sign exactly once and the cost is "
+             "np.dot(values, weights) of the weights the task was built with (ghost W0; assumed of np.dot: a function of the elements, "
+             "dot(-a, w) = -dot(a, w), dot(a, w) = dot(w, a)). "
              "EFF: PROV, FRAME-view, CALLS (single evaluation chain). Bounded: recomputation of every reported cost on real runs.",
              NOTE_VC + NOTE_HOOKS + "The user's objective is an uninterpreted deterministic function F.", TECH_VC + "; " + TECH_EFF + "; " + TECH_BND),
     "C03": C("Proved for all populations, ties, both directions and any pool order: special_agents / best_agents / sort_by_cost return the "
@@ -57,9 +59,11 @@ CLAIMS = {
              NOTE_VC + NOTE_HOOKS, TECH_VC + "; " + TECH_BND),
     "C07": C("Proved: on every path of optimize() the numpy global RNG is seeded with task.seed before any draw (ghost flag), for every "
              "integer seed in numpy's range (Task.seed is an int field); EFF READS-rng: the whole call graph (84 classes, helpers, models) "
-             "draws only from numpy's global legacy RNG - no stdlib random, private generators, time, uuid, id/hash. With INIT / CTOR "
+             "draws only from numpy's global legacy RNG - no stdlib random, private generators, time, uuid, id/hash, and never consumes a "
+             "set in iteration order unless its elements are provably ints (PYTHONHASHSEED). With INIT / CTOR "
              "(equal initial object state) the run is a function of (config, task, seed). Bounded: double runs of every optimizer with "
-             "a pre-perturbed global stream.",
+             "a pre-perturbed global stream; the same seeded run in fresh interpreter processes with different PYTHONHASHSEED on a "
+             "task whose string labels are decoded by transform_solution.",
              NOTE_VC + "Meta-theorem (by hand): equal object state + equal RNG stream => equal run, for the deterministic fragment of python/numpy. ",
              TECH_VC + "; " + TECH_EFF + "; " + TECH_BND),
     "C08": C("Proved: optimize()'s prologue re-establishes the fresh book-keeping state (loop invariant initialisation needs it); EFF INIT: "
